@@ -90,9 +90,11 @@ class FieldArrayModel(FieldCompositeModel):
         
         # Set the size field for arrays that don't
         # have a random size
-        if self.is_rand_sz:
+        if self.is_rand_sz and self.is_used_rand:
             self.size.set_used_rand(True)
         else:
+            # The size is not solved for: either it is not random at all, or
+            # the list sits below a sub-object that is not random in this call
             self._set_size(len(self.field_l))
         FieldCompositeModel.pre_randomize(self, visited)
         
